@@ -147,7 +147,7 @@ def run_job(job):
     with okv.Session(su) as s, okv.Session(su) as s2:
         ops = Ops(s, m, sz)
         # ------------------------------------------------------------------ (a) determinism
-        nworlds = 3 if tier == "quick" else 12
+        nworlds = 3 if tier == "quick" else 40
         inventory = {}
         for wi in range(nworlds):
             seed = proto.H("c17", su, job["seed"], wi)
@@ -222,7 +222,7 @@ def run_job(job):
         e = s.cmd("clogin_start", rng=rng, pw=ctx["pw"], out_state="B.cl", out_msg="B.cq")
         evals += 6
         for op in ("setup_new", "creg_start", "creg_finish", "clogin_start", "slogin_start", "slogin_start_fake"):
-            for rep in range(1 if tier == "quick" else 4):
+            for rep in range(1 if tier == "quick" else 8):
                 tseed = proto.H("c17t", su, job["seed"], op, rep)
                 r0 = ops.run(op, tseed, b"", ctx)
                 evals += 1
